@@ -250,10 +250,13 @@ func FuzzARPAPrefix(f *testing.F) {
 	f.Add("3.2.1.in-addr.arpa")
 	f.Add("x.y.8.b.d.0.1.0.0.2.ip6.arpa")
 	f.Fuzz(func(t *testing.T, s string) {
-		if _, err := checkPrefix(s); err != nil {
-			t.Fatal(err)
-		}
-		if _, err := checkExtract(s); err != nil {
+		if err := vp.Guard(func() error {
+			if _, err := checkPrefix(s); err != nil {
+				return err
+			}
+			_, err := checkExtract(s)
+			return err
+		}); err != nil {
 			t.Fatal(err)
 		}
 	})
